@@ -367,6 +367,8 @@ pub fn parse_mini(src: &str) -> AG {
 pub const CORPUS: &[(&str, &str)] = &[
     ("dragon_4_55", "S: C C; C: c C | d"),
     ("dragon_expr", "E: E p T | T; T: T m F | F; F: l E r | i"),
+    // the full G8 of Nozohoor-Farshi (one production reduced at two dot positions in one right-nulled state)
+    ("farshi_g8_full", "S: x | B S b | A S b; B: A A; A: EMPTY"),
     ("dragon_4_58_lr1_not_lalr", "S: a A d | b B d | a B e | b A e; A: c; B: c"),
     ("dragon_4_20_slr_conflict", "S: L q R | R; L: s R | i; R: L"),
     ("pager_g1", "G: a X d | a Y c | b X c | b Y d; X: e X | e; Y: e Y | e"),
